@@ -589,7 +589,7 @@ def check_C09(ctx):
 
 
 def check_C12(ctx):
-    n = 2 if ctx.quick else 3
+    n = 3 if ctx.quick else 4
     ctx.exhaustive = True
     l2_stateless(ctx, "Registry", "registry",
                  "Registry!NameCases(%d): every method name made of an optional leading slash and up to %d segments over "
@@ -622,7 +622,7 @@ def check_C16(ctx):
 
 
 def check_C17(ctx):
-    n = 2 if ctx.quick else 3
+    n = 3
     ctx.exhaustive = True
     l2_stateless(ctx, "Interceptors", "intercept",
                  "Interceptors!ClientCases(%d): base channel {real grpc.ClientConn, in-process, HTTP} x {unary, stream} x wrapper "
